@@ -238,6 +238,45 @@ theorem genRun_raised_iff (M : DTM σ Γ) :
             rw [vrunFrom_succ, hn.1] at hv
             exact ⟨he, k, by omega, ⟨v, hv, hvf, hst⟩, ((noFinalBefore_succ M _ _ k hn.1).mp hnf).2⟩
 
+/-- The generator yields a `k`-th further configuration exactly when the budget allows it
+and the run neither got stuck nor met a final state before. -/
+theorem genRun_exists_iff (M : DTM σ Γ) :
+    ∀ (n : Nat) (c : Cfg σ Γ), c.tape.WF → ∀ k,
+      ((∃ c', (genRun M.resume n c).1[k]? = some c') ↔
+        k < n ∧ (∃ v, M.vrunFrom (some (viewCfg c)) (k + 1) = some v) ∧
+          M.NoFinalBefore (viewCfg c) (k + 1)) := by
+  intro n
+  induction n with
+  | zero => intro c _ k; simp [genRun]
+  | succ n ih =>
+    intro c hc k
+    by_cases hf : c.state ∈ M.finals
+    · simp only [genRun, M.resume_final hf, List.getElem?_nil, reduceCtorEq, exists_false, false_iff]
+      rintro ⟨_, _, hnf⟩
+      exact hnf 0 (by omega) (viewCfg c) rfl hf
+    · cases hnx : M.next c with
+      | error e =>
+        have hn := M.next_err hnx
+        simp only [genRun, M.resume_err hf hnx, List.getElem?_nil, reduceCtorEq, exists_false,
+          false_iff]
+        rintro ⟨_, ⟨v, hv⟩, _⟩
+        rw [vrunFrom_succ, hn.1, vrunFrom_none] at hv
+        cases hv
+      | ok c1 =>
+        have hn := M.next_ok hc hnx
+        simp only [genRun, M.resume_ok hf hnx]
+        rw [noFinalBefore_succ M _ _ _ hn.1, vrunFrom_succ, hn.1]
+        cases k with
+        | zero =>
+          simp only [List.getElem?_cons_zero, Option.some.injEq, exists_eq', true_iff]
+          exact ⟨by omega, ⟨viewCfg c1, rfl⟩, hf, fun j hj => by omega⟩
+        | succ j =>
+          simp only [List.getElem?_cons_succ]
+          rw [ih c1 hn.2 j]
+          constructor
+          · rintro ⟨h1, h2, h3⟩; exact ⟨by omega, h2, hf, h3⟩
+          · rintro ⟨h1, h2, _, h3⟩; exact ⟨by omega, h2, h3⟩
+
 end DTM
 
 /-! ## NTM -/
@@ -471,6 +510,45 @@ theorem genRun_raised_iff (M : NTM σ Γ) :
           | succ k =>
             exact ⟨he, k, by omega, fun v hv => hemp v ((M.lev_succ hw k v).mpr hv),
               ((M.noFinalBefore_succ hw k).mp hnf).2⟩
+
+/-- The generator yields a `k`-th further level exactly when the budget allows it and the
+levels before are non-empty and free of final states. -/
+theorem genRun_exists_iff (M : NTM σ Γ) :
+    ∀ (n : Nat) (L : List (Cfg σ Γ)), AllWF L → ∀ k,
+      ((∃ L', (genRun M.resume n L).1[k]? = some L') ↔
+        k < n ∧ (∃ v, M.lev L k v) ∧ M.NoFinalBefore L (k + 1)) := by
+  intro n
+  induction n with
+  | zero => intro L _ k; simp [genRun]
+  | succ n ih =>
+    intro L hw k
+    by_cases hne : L = []
+    · subst hne
+      simp only [genRun, resume_nil, List.getElem?_nil, reduceCtorEq, exists_false, false_iff]
+      rintro ⟨_, ⟨v, u, ⟨c, hc, _⟩, _⟩, _⟩
+      cases hc
+    · by_cases hf : ∃ c ∈ L, c.state ∈ M.finals
+      · simp only [genRun, M.resume_final hf, List.getElem?_nil, reduceCtorEq, exists_false,
+          false_iff]
+        rintro ⟨_, _, hnf⟩
+        exact ((M.noFinalBefore_succ hw k).mp hnf).1 hf
+      · simp only [genRun, M.resume_step hne hf]
+        rw [M.noFinalBefore_succ hw k]
+        cases k with
+        | zero =>
+          simp only [List.getElem?_cons_zero, Option.some.injEq, exists_eq', true_iff]
+          refine ⟨by omega, ?_, hf, fun j hj => by omega⟩
+          cases L with
+          | nil => exact absurd rfl hne
+          | cons a t => exact ⟨viewCfg a, (M.lev_zero _ _).mpr ⟨a, by simp, rfl⟩⟩
+        | succ j =>
+          simp only [List.getElem?_cons_succ]
+          rw [ih _ (M.nextLevel_wf L) j]
+          constructor
+          · rintro ⟨h1, ⟨v, hv⟩, h3⟩
+            exact ⟨by omega, ⟨v, (M.lev_succ hw j v).mpr hv⟩, hf, h3⟩
+          · rintro ⟨h1, ⟨v, hv⟩, _, h3⟩
+            exact ⟨by omega, ⟨v, (M.lev_succ hw j v).mp hv⟩, h3⟩
 
 end NTM
 
